@@ -604,6 +604,7 @@ modifier_mapping: dict[str, Type[SigmaModifier[Any, Any]]] = {
     "multiline": SigmaRegularExpressionMultilineFlagModifier,
     "re": SigmaRegularExpressionModifier,
     "utf16": SigmaUTF16Modifier,
+    "utf16le": SigmaWideModifier,
     "utf16be": SigmaUTF16BEModifier,
     "s": SigmaRegularExpressionDotAllFlagModifier,
     "startswith": SigmaStartswithModifier,
